@@ -60,6 +60,8 @@ def c04(tier, seed):
               world("d_str_cref_excl", obj=0, key=1, arg=1, mode=2, threading=1, fraction=f),
               world("d_ord_ref_incl", obj=0, key=2, arg=2, mode=1, fraction=f, fill="0xFF"),
               world("d_hash_val_getevent", obj=0, key=3, arg=0, mode=3, fraction=f, threading=2),
+              world("d_int_val_getevent_byval", obj=0, key=0, arg=0, mode=4, fraction=f),
+              world("d_str_val_getevent_byval_q", obj=1, key=1, arg=0, mode=4, fraction=f, threading=1),
               world("d_enum_cref_usermap", obj=0, key=4, arg=1, map_=3, fraction=f, callback=1),
               world("d_int_val_stdmap_q", obj=1, key=0, arg=0, map_=1, fraction=f),
               world("d_hash_cref_umap", obj=0, key=3, arg=1, map_=2, fraction=f, fill="0x00"),
